@@ -373,6 +373,63 @@ def rule_R5(chk, repo):
     chk.floor(rid, 3, 3)
 
 
+def rule_R6(chk, repo):
+    """OpGraphEdge.add is the sum of two coefficient maps: per incoming pair (i, c) the coefficient c enters the list of
+    the receiving edge exactly once on every path (added to the entry with the same operator id, or appended)"""
+    rid = 'C16.R6'
+    chk.rule(rid, 'edge addition is a sum of coefficient maps: inside OpGraphEdge.add, on every path through one iteration '
+                  'of the loop over the other edge\'s (id, coefficient) pairs the coefficient enters the receiving list '
+                  'exactly once (path-partitioned counting through the search loop, its break and its else clause); a match '
+                  'removes the old entry before the sum is re-inserted; the matching test compares operator ids')
+    fi = repo.func('opgraph.OpGraphEdge.add')
+    other = fi.params[1]
+    loops = [s for s in fi.node.body if isinstance(s, ast.For) and norm(s.iter) == f'{other}.opics']
+    if len(loops) != 1 or not (isinstance(loops[0].target, ast.Tuple) and len(loops[0].target.elts) == 2 and
+                               all(isinstance(x, ast.Name) for x in loops[0].target.elts)):
+        raise AnalysisError('OpGraphEdge.add: loop `for i, c in other.opics` not found')
+    loop = loops[0]
+    oid, coeff = (x.id for x in loop.target.elts)
+
+    def is_sink(call):
+        return isinstance(call.func, ast.Attribute) and call.func.attr in ('append', 'insert', 'extend') and \
+            norm(call.func.value) == 'self.opics' and any(isinstance(n, ast.Name) and n.id == coeff
+                                                          for a in call.args for n in ast.walk(a))
+
+    class Body:
+        pass
+    body = Body()
+    body.node = ast.FunctionDef(name='body', args=fi.node.args, body=loop.body, decorator_list=[], lineno=loop.lineno)
+    body.node.end_lineno = loop.end_lineno
+    results, nraise = ts.check_exactly_once(body, is_sink)
+    if not results:
+        raise AnalysisError('OpGraphEdge.add: no path through the loop body')
+    n = 0
+    for r in results:
+        chk.ob(rid, where(repo, fi, loop), f'OpGraphEdge.add: path ending at line {r["line"]} under {r["facts"] or "no facts"} '
+               f'inserts the incoming coefficient exactly once', r['lo'] == 1 and r['hi'] == 1,
+               f'between {r["lo"]} and {r["hi"]}{"+" if r["hi"] >= 2 else ""} insertions (sites {r["sites"]})',
+               key=f'{rid}|path|{r["exit"]}|{"&".join(r["facts"])}|{n}')
+        n += 1
+    # a match removes the old entry and re-inserts the sum
+    pops = [c for c in ast.walk(loop) if isinstance(c, ast.Call) and isinstance(c.func, ast.Attribute) and
+            c.func.attr == 'pop' and norm(c.func.value) == 'self.opics']
+    sums = [c for c in ast.walk(loop) if isinstance(c, ast.Call) and is_sink(c) and
+            any(isinstance(b, ast.BinOp) and isinstance(b.op, ast.Add) for a in c.args for b in ast.walk(a))]
+    tests = [t for t in ast.walk(loop) if isinstance(t, ast.If)]
+    okm = len(pops) == 1 and len(sums) == 1 and len(tests) == 1 and any(pops[0] is x for x in ast.walk(tests[0])) and \
+        any(sums[0] is x for s_ in tests[0].body for x in ast.walk(s_))
+    chk.ob(rid, where(repo, fi, loop), 'OpGraphEdge.add: on a match the old entry is removed and the sum of both coefficients '
+           're-inserted (in the same branch)', okm, f'{len(pops)} pop(s), {len(sums)} summed insertion(s)', key=f'{rid}|match')
+    if tests:
+        t = tests[0].test
+        okt = isinstance(t, ast.Compare) and len(t.ops) == 1 and isinstance(t.ops[0], ast.Eq) and \
+            {norm(t.left), norm(t.comparators[0])} & {oid} and any(x.endswith('[0]') for x in (norm(t.left), norm(t.comparators[0])))
+        chk.ob(rid, where(repo, fi, tests[0]), f'OpGraphEdge.add: the match compares the stored operator id with `{oid}`', bool(okt),
+               norm(t), key=f'{rid}|test')
+        n += 1
+    return n + 1
+
+
 def run(chk, repo, tier):
     eng = Engine(repo)
     rule_R5(chk, repo)
@@ -380,6 +437,7 @@ def run(chk, repo, tier):
     rule_R2(chk, repo, eng)
     rule_R3(chk, repo, eng)
     rule_R4(chk, repo, eng)
+    rule_R6(chk, repo)
     for a in sorted(eng.assumed):
         chk.assume(a)
     chk.undecided += ['denotational equality of the graph before and after a rewrite',
